@@ -18,6 +18,10 @@ import Verif.Model.Admin
           sp:<id>:<name>:<tok>:<kid|!>:<sum>:<faults>           StoreProvisioner
           up:<id>:<name>:<tok>:<kid|!>:<sum>:<faults>           UpdateProvisioner
           rp:<id>:<faults>  rs                                  RemoveProvisioner / restart
+          sp/up may carry a trailing `:<policy>` (the provisioner's own policy, `!` = none)
+          cp:<cur>:<policy>:<faults>  mp:…  dp:<faults>         Create/Update/RemoveAuthorityPolicy
+          u:<sub,sub,…> (first field)                           subjects whose policy verdicts are dumped
+          <policy> = <tag>~<n|b|e>~<sub.v+sub.v…|->  (kind: no X.509 part / bad config / engine; v: a|n|e)
           init:<provs>|<adms> is not needed: the sequence starts from `i:` operations
           ip:<id>:<name>:<tok>:<kid|!>:<sum>  ia:<id>:<sub>:<provId>:<0|1>   records present in the
                                               database before the CA is first started (`boot`)
@@ -47,9 +51,33 @@ def sortS (l : List String) : List String := l.mergeSort (fun a b => !(b < a))
 def join (l : List String) : String := ",".intercalate l
 def strKeyLe (a b : Str) : Bool := !(slt b a)
 
+def verdict? (t : String) : Option SanVerdict :=
+  if t = "a" then some .allowed else if t = "n" then some .notAllowed else if t = "e" then some .evalError else none
+
+def kind? (t : String) : Option PolKind :=
+  if t = "n" then some .noX509 else if t = "b" then some .badConfig else if t = "e" then some .engine else none
+
+def verdictEntry? (e : String) : Option (Str × SanVerdict) :=
+  match e.splitOn "." with
+  | [sub, v] => do pure ((← str? sub), (← verdict? v))
+  | _ => none
+
+/-- `<tag>~<kind n|b|e>~<sub.v+sub.v…|->` -/
+def pol? (t : String) : Option Pol :=
+  match t.splitOn "~" with
+  | [tag, k, vs] => do
+    let vl ← (if vs = "-" then some [] else (vs.splitOn "+").mapM verdictEntry?)
+    pure { tag := (← str? tag), kind := (← kind? k), verdicts := vl }
+  | _ => none
+
+def optPol? (t : String) : Option (Option Pol) := if t = "!" then some none else (pol? t).map some
+
 def prov? : List String → Option Prov
   | [id, name, tok, kid, sum] => do
     pure { id := (← str? id), name := (← str? name), tok := (← str? tok), kid := (← optStr? kid), sum := (← str? sum) }
+  | [id, name, tok, kid, sum, pol] => do
+    pure { id := (← str? id), name := (← str? name), tok := (← str? tok), kid := (← optStr? kid), sum := (← str? sum),
+           pol := (← optPol? pol) }
   | _ => none
 
 def adm? : List String → Option Adm
@@ -124,9 +152,25 @@ def collOp (s : Cache) (tok : String) : Option (Cache × String) :=
 def authOutS : AuthOut → String
   | .ok => "ok" | .badRequest => "bad" | .notFound => "nf" | .storeFailed => "storefail"
   | .reloadFailed => "reloadfail" | .cacheFailed => "cachefail" | .crash => "crash"
+  | .lockOut => "lockout" | .evalFailure => "eval" | .configFailure => "config" | .internalFailure => "internal"
+
+def verdictS : SanVerdict → String
+  | .allowed => "a" | .notAllowed => "n" | .evalError => "e"
+
+/-- what the enforced authority policy says about each subject of the universe -/
+def engineS (e : Option Pol) (univ : List Str) : String :=
+  join (univ.map fun sub => h sub ++ "." ++ match e with
+    | some p => (match p.kind with
+      | .engine => verdictS (verdictOf p sub)
+      | _ => "a")
+    | none => "a")
+
+def polTag : Option Pol → String
+  | some p => h p.tag
+  | none => "!"
 
 /-- what the admin API lists (all pages) plus the authentication index and counters -/
-def authDump (s : Auth) : String :=
+def authDump (univ : List Str) (s : Auth) : String :=
   let A := s.cache.A
   let P := s.cache.P
   let aList := join (A.sorted.map admS)
@@ -134,10 +178,10 @@ def authDump (s : Auth) : String :=
   let pList := join (sortS (P.sorted.map fun e => provS e.2))
   let dA := join ((s.db.adms.mergeSort fun x y => strKeyLe x.id y.id).map admS)
   let dP := join (sortS (s.db.provs.map provS))
-  s!"A[{aList}]S[{aSp}]P[{pList}]dA[{dA}]dP[{dP}]"
+  s!"A[{aList}]S[{aSp}]P[{pList}]dA[{dA}]dP[{dP}]pol={polTag s.db.policy}E[{engineS s.engine univ}]"
 
-def authOp (s : Auth) (tok : String) : Option (Auth × String) :=
-  let fin (r : Auth × AuthOut) := let (s', o) := r; some (s', authOutS o ++ "#" ++ authDump s')
+def authOp (univ : List Str) (s : Auth) (tok : String) : Option (Auth × String) :=
+  let fin (r : Auth × AuthOut) := let (s', o) := r; some (s', authOutS o ++ "#" ++ authDump univ s')
   match tok.splitOn ":" with
   | "ip" :: r => do
     let p ← prov? r
@@ -155,6 +199,13 @@ def authOp (s : Auth) (tok : String) : Option (Auth × String) :=
     fin (Auth.step current (← faults? f) s (.storeProv (← prov? [id, name, tok, kid, sum])))
   | ["up", id, name, tok, kid, sum, f] => do
     fin (Auth.step current (← faults? f) s (.updateProv (← prov? [id, name, tok, kid, sum])))
+  | ["sp", id, name, tok, kid, sum, f, pol] => do
+    fin (Auth.step current (← faults? f) s (.storeProv (← prov? [id, name, tok, kid, sum, pol])))
+  | ["up", id, name, tok, kid, sum, f, pol] => do
+    fin (Auth.step current (← faults? f) s (.updateProv (← prov? [id, name, tok, kid, sum, pol])))
+  | ["cp", cur, pol, f] => do fin (Auth.step current (← faults? f) s (.createPolicy (← str? cur) (← pol? pol)))
+  | ["mp", cur, pol, f] => do fin (Auth.step current (← faults? f) s (.updatePolicy (← str? cur) (← pol? pol)))
+  | ["dp", f] => do fin (Auth.step current (← faults? f) s .removePolicy)
   | ["rp", id, f] => do fin (Auth.step current (← faults? f) s (.removeProv (← str? id)))
   | ["la", l] => do
     pure (s, pagesS (fun a : Adm => h a.id) (s.cache.A.pages (← int? l) fuel) fuel)
@@ -231,7 +282,15 @@ def eval (line : String) : Option String := do
   let toks := (fields line).filter (fun t => !t.startsWith "case=")
   match toks with
   | "coll" :: ops => do pure (summary (← runOps collOp {} ops []))
-  | "auth" :: ops => do pure (summary (← runOps authOp {} ops []))
+  | "auth" :: ops => do
+    -- an optional first field `u:<sub,sub,…>` lists the subjects whose policy verdicts are dumped
+    match ops with
+    | u :: rest =>
+      if u.startsWith "u:" then do
+        let univ ← listOf str? (u.drop 2).toString
+        pure (summary (← runOps (authOp univ) {} rest []))
+      else pure (summary (← runOps (authOp []) {} ops []))
+    | [] => pure (summary [])
   | "tok" :: _ => tokEval line
   | _ => none
 
